@@ -11,7 +11,7 @@ Not decided here: RLE max size (amortised), adaptive max size (depends on select
 cursors kept in reader/writer objects, block residues) - listed in the evidence."""
 import os
 from ..report import Run, Finding, rel
-from ..common import lib_module, configs_for, need_fn, with_helpers_inlined
+from ..common import lib_module, configs_for, need_fn, with_helpers_inlined, carries_pointers
 from ..build import AnalysisBroken
 from ..core import World
 from .. import sizeterms as ST
@@ -42,6 +42,15 @@ def fmt_term(t):
     return "%s of %s%s" % (tn, "/".join(map(str, r)), " (or the constant %s instead)" % "/".join(map(str, al)) if al else "")
 
 
+def len_atom_bits(a, ef=None):
+    """bit width of the quantity a `len` atom measures, when it is a member of a local record (by position) or a named struct field
+    (the widest load of a member of that name; not trusted when the encoder also has a parameter of that name)"""
+    if a[0] != "len": return None
+    if a[2].startswith("member/"): return int(a[2].split("/")[2])
+    if "/" not in a[2] and a[2] in ST._FIELD_BITS and ef is not None and ef.param_index(a[2]) is None: return ST._FIELD_BITS[a[2]]
+    return None
+
+
 def width_decisions(fn):
     """decision list value -> width used to normalise a field width (varintGroup): [(pred, constant, result)] in program order"""
     out = []
@@ -60,16 +69,10 @@ def analyse(mod, run, label):
     # ---- Z1 ----
     for pred, enc, exact in PAIRS:
         pf = need_fn(mod, pred); ef = need_fn(mod, enc)
-        pt, pd = ST.size_terms(pf, mod, "size"); et, ed = ST.size_terms(ef, mod, "cursor")
-        if pt and not et:
-            # the encoder may have been split into cursor-returning helpers: look at it with those inlined
-            m2, ef2 = with_helpers_inlined(mod, ef, label)
-            if m2 is not None:
-                et, ed = ST.size_terms(ef2, m2, "cursor")
-                if et: run.observe("%s: size terms read with its file-local helpers inlined" % enc)
+        pt, et, unc, unexp, note = ST.paired_terms(mod, pf, ef, label, exact)
+        if note: run.observe("%s / %s: %s" % (pred, enc, note))
         if not pt or not et: raise AnalysisBroken("%s / %s: no size terms extracted" % (pred, enc))
         npairs += 1
-        unc, unexp = ST.match_terms(pt, et, exact)
         run.check(not unc, "Z1-encoder-advance-accounted", {"predictor": pred, "encoder": enc, "encoder_terms": sorted(fmt_term(t) for t in et), "predictor_terms": sorted(fmt_term(t) for t in pt)},
                   Finding("Z1-size-term-missing", pred, enc, "+".join(sorted(fmt_term(t) for t in unc))[:120],
                           "%s advances its output by %s, but %s has no term sizing that quantity with the same length function (it has %s): the predicted size can be smaller than what is written" % (
@@ -101,8 +104,8 @@ def analyse(mod, run, label):
         # a length the predictor does not name is at most the longest entry of its table for the width of the measured value
         ep2 = ep
         for a in sorted(ep.atoms() - pp.atoms(), key=repr):
-            if a[0] == "len" and a[2].startswith("member/"):
-                bits = int(a[2].split("/")[2]); ep2 = ep2.subst(a, Poly.const(tagged_max(mod, bits)))
+            bits = len_atom_bits(a, ef)
+            if bits is not None: ep2 = ep2.subst(a, Poly.const(tagged_max(mod, bits)))
         d = pp - ep2
         foreign = {a for k, v in d.t.items() for a in k if (a in pp.atoms()) != (a in ep2.atoms())}
         if foreign:
@@ -144,7 +147,7 @@ def analyse(mod, run, label):
                 for c, cond in ext:
                     c2 = c
                     for a in sorted(c.atoms() - P.atoms(), key=repr):
-                        if a[0] == "len" and a[2].startswith("member/"): c2 = c2.subst(a, Poly.const(tagged_max(mod, int(a[2].split("/")[2]))))
+                        if len_atom_bits(a, ef) is not None: c2 = c2.subst(a, Poly.const(tagged_max(mod, len_atom_bits(a, ef))))
                     d = P - c2
                     foreign = c2.atoms() - P.atoms()
                     if foreign: raise Unbounded("a write is bounded over quantities the predictor does not mention (%s)" % ", ".join(sorted(fmt_atom(a) for a in foreign)))
@@ -165,7 +168,7 @@ def analyse(mod, run, label):
         ef = need_fn(mod, enc); sf = need_fn(mod, sizer)
         dk = ef.param_index(dstn); ck = ef.param_index(cname)
         if dk is None or ck is None: raise AnalysisBroken("%s: parameters %s / %s not found" % (enc, dstn, cname))
-        ub = UB(w, ef); ub.q = M > 1
+        ub = UB(w, ef); ub.q = True
         if opts.get("pin"): ub.pin_args({ef.param_index(n): v for n, v in opts["pin"].items()})
         ca = ub.arg_atom(ck)
         # the sizing function, exactly, in terms of the encoder's count (and of the parameters the two share by name)
@@ -175,19 +178,30 @@ def analyse(mod, run, label):
             su.exact_args[sf.param_index(n)] = Poly.atom(ub.arg_atom(ef.param_index(n)))
         size = su.exact_return()
         if size is None: raise AnalysisBroken("%s: sizing function is not an exact expression of count" % sizer)
-        try:
-            indirect = []
-            worst, nacc = ub.extent(B, ("arg", dk), indirect=indirect)
-            if not worst: raise AnalysisBroken("%s: no writes through %s found" % (enc, dstn))
-            for cal, ln in indirect:
-                run.observe("%s line %s: %s writes the destination through the pointer kept in a writer object; its bytes are assumed to lie below the byte count the writer reports (bit position / 8), which is what is bounded here" % (enc, ln, cal))
-            for rt in ef.rets():
+        def write_bounds(w_, B_, ef_):
+            u_ = UB(w_, ef_); u_.q = True
+            if opts.get("pin"): u_.pin_args({ef_.param_index(n): v for n, v in opts["pin"].items()})
+            indirect_ = []
+            worst_, nacc_ = u_.extent(B_, ("arg", dk), indirect=indirect_)
+            if not worst_: raise AnalysisBroken("%s: no writes through %s found" % (enc, dstn))
+            for rt in ef_.rets():
                 if rt.ops and rt.ops[0]["k"] != "int":
                     v = rt.ops[0]
-                    cands = [inc["v"] for inc in ef.imap[v["v"]]["incoming"]] if v["k"] == "inst" and ef.imap[v["v"]].op == "phi" and ef.imap[v["v"]].block is rt.block else [v]
+                    cands = [inc["v"] for inc in ef_.imap[v["v"]]["incoming"]] if v["k"] == "inst" and ef_.imap[v["v"]].op == "phi" and ef_.imap[v["v"]].block is rt.block else [v]
                     for c in cands:
                         if c["k"] == "int": continue
-                        worst.append((ub.at(rt.block).ub(c), None))
+                        worst_.append((u_.at(rt.block).ub(c), None))
+            return worst_, nacc_, indirect_
+        try:
+            try: worst, nacc, indirect = write_bounds(w, B, ef)
+            except Unbounded:
+                # the encoder may pass its cursor through file-local helpers that return it: bound it with those inlined
+                m2, ef2 = with_helpers_inlined(mod, ef, label, only=carries_pointers)       # pure scalar helpers stay calls (named quantities)
+                if m2 is None: raise
+                w2 = World(m2); worst, nacc, indirect = write_bounds(w2, Bounds(w2), ef2)
+                run.observe("Z2 %s: bounded with its file-local helpers inlined" % enc)
+            for cal, ln in indirect:
+                run.observe("%s line %s: %s writes the destination through the pointer kept in a writer object; its bytes are assumed to lie below the byte count the writer reports (bit position / 8), which is what is bounded here" % (enc, ln, cal))
         except Unbounded as e:
             run.defer_broken("Z2 %s: output cursor not boundable: %s" % (enc, e)); continue
         nmax += 1
@@ -202,7 +216,18 @@ def analyse(mod, run, label):
                             cv = residue_eval(cond, ca, M, r, qpos)
                             if cv.is_const() and cv.c() <= 0: continue     # this kind of iteration does not occur for such a count
                         ncmp += 1
-                        d = S - residue_eval(p, ca, M, r, qpos)
+                        pv_ = residue_eval(p, ca, M, r, qpos)
+                        foreign = {a for a in pv_.atoms() - S.atoms() if not (isinstance(a, tuple) and a[0] == "q")}
+                        if foreign:
+                            # the bound still mentions a quantity the engine could not evaluate (e.g. the result of a helper whose loop it does
+                            # not understand): there is nothing to compare - inconclusive, not a verdict
+                            raise Unbounded("the bound of a write mentions %s, which the sizing function does not: %r" % (", ".join(sorted(fmt_atom(a) for a in foreign)), p))
+                        d = S - pv_
+                        deg = lambda P_: max([sum(1 for a in k if a == ("q",)) for k in P_.t] or [0])
+                        if deg(pv_) > max(1, deg(S)):
+                            # a bound that grows faster than linearly in the count is the engine charging every iteration with the whole
+                            # input (a loop shape its block lemmas do not cover), not something an encoder can do: inconclusive
+                            raise Unbounded("the bound of a write is not linear in the count (%r): the loop structure was not recognised" % p)
                         if not d.nonneg_coeffs():
                             bad.append((r, qpos, p, S, d)); break
                     if bad: break
